@@ -424,8 +424,11 @@ def raytrace(surfaces, P, S, wvl, n_ambient=1):
     P = np.asarray(P)
     S = np.asarray(S)
     jj = len(surfaces)
-    P_hist = np.empty((jj+1, *P.shape), dtype=P.dtype)
-    S_hist = np.empty((jj+1, *S.shape), dtype=P.dtype)
+    # the histories are floating point however the rays were spelled:
+    # P = [0, 0, -10], S = [0, 0, 1] make integer arrays
+    dtype = np.result_type(P.dtype, S.dtype, np.float32)
+    P_hist = np.empty((jj+1, *P.shape), dtype=dtype)
+    S_hist = np.empty((jj+1, *S.shape), dtype=dtype)
     Pj = P
     Sj = S
     P_hist[0] = P
